@@ -205,8 +205,6 @@ impl<T: Qcow2IoOps> Qcow2Dev<T> {
         let mut len = buf.len();
         let old_offset = offset;
         let old_len = len;
-        let single =
-            (offset >> info.cluster_bits()) == ((offset + (len as u64) - 1) >> info.cluster_bits());
 
         if offset >= vsize {
             if !info.is_back_file() {
@@ -247,6 +245,18 @@ impl<T: Qcow2IoOps> Qcow2Dev<T> {
         };
 
         debug_assert!((len & bs_mask) == 0);
+
+        if len == 0 {
+            // less than one block is left before the end of the image
+            return Ok(extra);
+        }
+
+        // `offset` and `len` are validated and clamped now, so `offset + len`
+        // can't overflow and `len` isn't zero; never touch more than the
+        // clamped length
+        let single =
+            (offset >> info.cluster_bits()) == ((offset + (len as u64) - 1) >> info.cluster_bits());
+        let (buf, _) = buf.split_at_mut(len);
 
         let done = if single {
             let l2_entry = self.get_l2_entry(offset).await?;
